@@ -3,6 +3,7 @@ the live objects).  An op whose precondition does not hold is skipped and counte
 from __future__ import annotations
 
 import asyncio
+import os
 import json
 
 from .sim import Sim
@@ -97,6 +98,39 @@ class World(Sim):
             r = {'skipped': True}
         self.log.append((op, {k: v for k, v in r.items() if k != 'value'}))
         return r
+
+    async def op_par(self, op_a, op_b, sched=()):
+        """two requests / loop bodies in flight at once: both ops run as concurrent tasks and every SQL statement either of them sends
+        is a schedule point at which the generated schedule (a list of small ints: how many times to yield first) decides who goes
+        next.  Transactions still serialise from their first write or locking read (the minimysql gate), so what is explored is what
+        MySQL would also allow: interleavings at statement boundaries outside the locked part of a transaction."""
+        import asyncio
+        if op_a[0] == 'par' or op_b[0] == 'par':
+            return None
+        sched = list(sched)
+        pos = [0]
+
+        trace = []
+
+        async def hook(sess, sql):
+            k = sched[pos[0] % len(sched)] if sched else 0
+            pos[0] += 1
+            if os.environ.get('VERIF_PAR_TRACE'):
+                trace.append((sess.id, k, ' '.join(str(sql).split())[:60]))
+            for _ in range(k):
+                await asyncio.sleep(0)
+        eng = self.engine
+        prev = getattr(eng, 'sched_hook', None)
+        eng.sched_hook = hook
+        try:
+            ta = asyncio.ensure_future(self.apply(list(op_a)))
+            tb = asyncio.ensure_future(self.apply(list(op_b)))
+            ra, rb = await asyncio.gather(ta, tb)
+        finally:
+            eng.sched_hook = prev
+        ok = bool((ra or {}).get('ok', True)) and bool((rb or {}).get('ok', True))
+        return {'ok': ok, 'a': {k: v for k, v in (ra or {}).items() if k != 'value'}, 'b': {k: v for k, v in (rb or {}).items() if k != 'value'},
+                'schedule_points': pos[0], **({'trace': trace} if trace else {})}
 
     async def op_tick(self, ms):
         self.tick(int(ms))
